@@ -243,7 +243,16 @@ pub fn scenario(g: &mut G, ctx: &RunCtx) -> RunReport {
     }
     let (chunks, styles) = if framing == Framing::Chunked { bodyx::gen_chunks(g, wire_body.len()) } else { (vec![], vec![]) };
     let mut wire = Wire::default();
-    wire.bytes = httpref::encode_head(200, "OK", &headers);
+    // (no draw) the coding of a body does not depend on the status that carries it - error pages are compressed
+    // too, and so are the 3xx responses that nobody follows (300, 305, 306, unassigned ones), Location or not
+    let status: u16 = [200u16, 200, 404, 300, 500, 305, 206, 399, 306, 410][(payload.len() + headers.len()) % 10];
+    if (300..400).contains(&status) {
+        if payload.len() % 2 == 0 {
+            headers.push(("Location".into(), b"/elsewhere".to_vec()));
+        }
+        g.probe("coded-body-on-a-3xx-that-is-not-followed");
+    }
+    wire.bytes = httpref::encode_head(status, "OK", &headers);
     wire.head_len = wire.bytes.len();
     httpref::encode_body(&mut wire, framing, &wire_body, &chunks, b"0", &[]);
     let (segs, seg_name) = gen::segmentation(g, wire.bytes.len(), &wire.targets.clone());
@@ -275,7 +284,7 @@ pub fn scenario(g: &mut G, ctx: &RunCtx) -> RunReport {
     let plan = BodyPlan {
         host_is_domain: false,
         method: "GET",
-        status: 200,
+        status,
         framing,
         payload: payload.clone(),
         chunk_lens: chunks.iter().map(|c| c.len).collect(),
